@@ -16,6 +16,14 @@ CHECKS = {
   "held on the observed scans: lexeme-stream invariants checked on every error-free scan of an exhaustive token-sequence space (bounded length) plus coverage-guided mutants; exhaustive only under the stated token bound",
   "trusts the schema library's Len() as the delimiter of schema/enum values and the scanner's public Next() as the observation point",
   "runtime monitoring: invariant checker over the recorded lexeme event stream of the real scanner"),
+ "C02": ("exploration",
+  "held on the observed rejections: every rejection's file, index, line, quote and include trace is re-derived independently; injected faults additionally pin the directive span; bounded include depth",
+  "trusts the verif-tagged accessors for the located file name and raw trace entries; mixed-newline files are range-checked only",
+  "runtime monitoring: invariant on each rejected execution, recomputed by an independent reference routine; fault injection into generated include projects"),
+ "C09": ("exploration",
+  "held on the observed accepted outputs: a structural invariant monitor over the real serialised catalog (duplicate keys via a streaming token decoder, cross-references, id encoding, body/format table, Title())",
+  "trusts encoding/json's tokenizer as the JSON reference",
+  "runtime monitoring: invariant checker over the serialised output of every accepted execution"),
 }
 
 def main():
